@@ -31,7 +31,10 @@ def models_for(ctx, n_random, systematic=True, handlers=False,
         if i % ctx.nshards != ctx.shard:
             continue
         mrng = ctx.rng("model", i)
-        m = family.random_model(mrng, handlers=handlers)
+        if i % 12 == 11:
+            m = family.targeted_extends_model(mrng)
+        else:
+            m = family.random_model(mrng, handlers=handlers)
         if handler_density is not None:
             family.add_handlers(mrng, m, handler_density)
         if augment:
